@@ -216,6 +216,200 @@ pub fn do_step(db: &Db, step: Step) -> parity_db::Result<()> {
 	}
 }
 
+// ---------------------------------------------------------------------------------------------
+// Nested stepping: a deterministic stand-in for two pipeline workers running at the same time.
+// While the OUTER step runs on this thread, the library reaches one of its hand-over sites
+// (`parity_db::verif::yield_point`); at the chosen hit of the chosen site the hook runs the
+// INNER steps - steps that in the real program belong to ANOTHER worker thread - and then lets
+// the outer step continue. Only (site, inner) pairs are generated at which the outer step holds
+// no lock the inner steps need and which correspond to distinct workers (DESIGN 3.1).
+// ---------------------------------------------------------------------------------------------
+
+/// Sites of `parity_db::verif` (numbers fixed by the hook commit).
+pub mod site {
+	pub const BEFORE_END_RECORD: u32 = 2;
+	pub const AFTER_END_RECORD: u32 = 3;
+	pub const AFTER_OVERLAY_CLEAN: u32 = 4;
+	pub const BEFORE_END_READ: u32 = 5;
+	pub const AFTER_END_READ: u32 = 6;
+	pub const ENACT_ACTION: u32 = 7;
+	pub const FLUSH_SYNCED: u32 = 8;
+	pub const DROP_INDEX: u32 = 11;
+	pub const BEFORE_CLEAN: u32 = 12;
+	pub const REINDEX_RECORD: u32 = 15;
+}
+
+#[derive(Clone, Debug, PartialEq, Eq)]
+pub struct Nest {
+	pub site: u32,
+	/// fire at the n-th time (1-based) the site is reached inside the outer step
+	pub hit: u32,
+	pub inner: Vec<Step>,
+}
+
+impl Nest {
+	pub fn show(&self) -> String {
+		format!("@site{}#{}[{}]", self.site, self.hit, self.inner.iter().map(|s| s.name()).collect::<Vec<_>>().join(","))
+	}
+}
+
+/// Which worker a step belongs to: 0 log worker, 1 flush worker, 2 commit worker, 3 cleanup worker.
+pub fn worker_of(step: Step) -> u8 {
+	match step {
+		Step::ProcessCommits | Step::ProcessReindex => 0,
+		Step::FlushLogs => 1,
+		Step::EnactOne | Step::EnactAll => 2,
+		Step::CleanLogs => 3,
+	}
+}
+
+/// Sites that an outer step can reach without holding a lock an inner step of another worker needs.
+pub fn sites_of(outer: Step) -> &'static [u32] {
+	match outer {
+		Step::ProcessCommits => &[site::BEFORE_END_RECORD, site::AFTER_END_RECORD, site::AFTER_OVERLAY_CLEAN],
+		Step::ProcessReindex => &[site::REINDEX_RECORD],
+		// at FLUSH_SYNCED the flush stage still holds the `appending` write lock: no other stage can run there
+		Step::FlushLogs => &[],
+		Step::EnactOne | Step::EnactAll => &[site::ENACT_ACTION, site::BEFORE_END_READ, site::AFTER_END_READ],
+		Step::CleanLogs => &[site::BEFORE_CLEAN],
+	}
+}
+
+/// A random nested schedule for `outer`: a site the outer step reaches without holding a lock
+/// the inner steps need, and 1-2 steps of other workers. None when the outer step has no such site.
+pub fn random_nest(rng: &mut crate::Rng, outer: Step) -> Option<Nest> {
+	let sites = sites_of(outer);
+	if sites.is_empty() {
+		return None
+	}
+	let s = *rng.pick(sites);
+	let hit = if s == site::ENACT_ACTION { rng.range(1, 8) as u32 } else { rng.range(1, 2) as u32 };
+	let all = [Step::ProcessCommits, Step::ProcessReindex, Step::FlushLogs, Step::EnactOne, Step::EnactAll, Step::CleanLogs];
+	let others: Vec<Step> = all.iter().copied().filter(|x| worker_of(*x) != worker_of(outer)).collect();
+	let n = rng.range(1, 2) as usize;
+	let inner = (0..n).map(|_| *rng.pick(&others)).collect();
+	Some(Nest { site: s, hit, inner })
+}
+
+struct NestState {
+	db: usize,
+	site: u32,
+	remaining: u32,
+	inner: Vec<Step>,
+	fired: bool,
+	executed: usize,
+	err: Option<String>,
+}
+
+static NEST: std::sync::Mutex<Option<NestState>> = std::sync::Mutex::new(None);
+static INNER_ENACT: std::sync::atomic::AtomicBool = std::sync::atomic::AtomicBool::new(false);
+
+/// True while (and after, until the next nested call) the current nested schedule has let the
+/// commit stage apply log records inside another stage's step.
+pub fn nested_enact_fired() -> bool {
+	INNER_ENACT.load(std::sync::atomic::Ordering::SeqCst)
+}
+
+fn nest_hook(site: u32) {
+	let (dbp, inner) = {
+		let mut g = NEST.lock().unwrap_or_else(|e| e.into_inner());
+		match g.as_mut() {
+			Some(n) if !n.fired && n.site == site => {
+				n.remaining = n.remaining.saturating_sub(1);
+				if n.remaining > 0 {
+					return
+				}
+				n.fired = true;
+				(n.db, n.inner.clone())
+			},
+			_ => return,
+		}
+	};
+	// SAFETY: the pointer is the `&Db` of the enclosing `do_step_nested` call on this thread
+	let db: &Db = unsafe { &*(dbp as *const Db) };
+	let mut executed = 0;
+	let mut err = None;
+	for s in inner {
+		if matches!(s, Step::EnactOne | Step::EnactAll) {
+			INNER_ENACT.store(true, std::sync::atomic::Ordering::SeqCst);
+		}
+		match do_step_inner(db, s) {
+			Ok(true) => executed += 1,
+			Ok(false) => {},
+			Err(e) => {
+				err = Some(format!("{}: {}", s.name(), e));
+				break
+			},
+		}
+	}
+	let mut g = NEST.lock().unwrap_or_else(|e| e.into_inner());
+	if let Some(n) = g.as_mut() {
+		n.executed = executed;
+		n.err = err;
+	}
+}
+
+/// An inner step: as `do_step`, but never inserts a cleanup step (it may run inside one) -
+/// an enact that the commit worker would have to wait for is skipped instead.
+fn do_step_inner(db: &Db, step: Step) -> parity_db::Result<bool> {
+	match step {
+		Step::ProcessCommits => db.process_commits().map(|_| true),
+		Step::ProcessReindex => db.process_reindex().map(|_| true),
+		Step::FlushLogs => db.flush_logs().map(|_| true),
+		Step::CleanLogs => db.clean_logs().map(|_| true),
+		Step::EnactOne => {
+			if db.verif_status().dirty_logs > MAX_DIRTY {
+				return Ok(false)
+			}
+			db.verif_enact_one().map(|_| true)
+		},
+		Step::EnactAll => {
+			let mut any = false;
+			for _ in 0..10_000 {
+				let st = db.verif_status();
+				if st.dirty_logs > MAX_DIRTY {
+					break
+				}
+				any = true;
+				if !db.verif_enact_one()? {
+					let st = db.verif_status();
+					if st.read_queue_len == 0 && st.reading.is_none() {
+						break
+					}
+				}
+			}
+			Ok(any)
+		},
+	}
+}
+
+pub struct NestOutcome {
+	/// the site was reached often enough and the inner steps were started
+	pub fired: bool,
+	pub inner_executed: usize,
+	pub inner_err: Option<String>,
+}
+
+/// Run `outer` with the inner steps of `nest` injected at its site. The outer result is returned
+/// as for `do_step`; an error of an inner step is reported in the outcome (with the fault
+/// injector armed the outer step then fails at its next file operation as well).
+pub fn do_step_nested(db: &Db, outer: Step, nest: &Nest) -> (parity_db::Result<()>, NestOutcome) {
+	{
+		let mut g = NEST.lock().unwrap_or_else(|e| e.into_inner());
+		*g = Some(NestState { db: db as *const Db as usize, site: nest.site, remaining: nest.hit.max(1), inner: nest.inner.clone(), fired: false, executed: 0, err: None });
+	}
+	INNER_ENACT.store(false, std::sync::atomic::Ordering::SeqCst);
+	parity_db::verif::set_yield_hook(Some(nest_hook));
+	let r = do_step(db, outer);
+	parity_db::verif::set_yield_hook(None);
+	let st = NEST.lock().unwrap_or_else(|e| e.into_inner()).take();
+	let out = match st {
+		Some(n) => NestOutcome { fired: n.fired, inner_executed: n.executed, inner_err: n.err },
+		None => NestOutcome { fired: false, inner_executed: 0, inner_err: None },
+	};
+	(r, out)
+}
+
 /// Make the state legal for dropping the handle (rule L2): `drop` enacts every pending log
 /// file without a cleanup stage, so the number of uncleaned + pending files must stay <= 5.
 pub fn make_drop_legal(db: &Db) -> parity_db::Result<()> {
